@@ -156,8 +156,19 @@ func historyJob(hists [][]hcall, funcs []bool) job {
 	}
 }
 
+func historyKey(kind string, n int, at func(int) ([]byte, string)) [][]byte {
+	parts := [][]byte{[]byte(kind)}
+	for i := 0; i < n; i++ {
+		in, how := at(i)
+		parts = append(parts, in, []byte(how))
+	}
+	return parts
+}
+
 func runHistory(d *lib.Driver, h []hcall, funcs bool) error {
-	rep.AddEval(1, 1)
+	rep.AddEval(1, distinctCase(historyKey(fmt.Sprint("parser", funcs), len(h), func(i int) ([]byte, string) {
+		return h[i].in, fmt.Sprint(h[i].reader, h[i].chunks, h[i].cb, h[i].reuse)
+	})...))
 	rep.Count("calls", int64(len(h)))
 	p := &sen.Parser{}
 	if funcs {
@@ -506,7 +517,9 @@ func tokHistoryJob(hists [][]tcall) job {
 // runTokHistory: calls on ONE sen.Tokenizer, each compared with a fresh tokenizer (callbacks and error)
 // and with the Lean machine started with the `exkey` the instance really holds at entry.
 func runTokHistory(d *lib.Driver, h []tcall) error {
-	rep.AddEval(1, 1)
+	rep.AddEval(1, distinctCase(historyKey("tokenizer", len(h), func(i int) ([]byte, string) {
+		return h[i].in, fmt.Sprint(h[i].reader, h[i].chunks, h[i].multi)
+	})...))
 	rep.Count("tokenizer_calls", int64(len(h)))
 	t := &sen.Tokenizer{}
 	var descr []string
@@ -616,5 +629,5 @@ func runC07() {
 			emit(tokHistoryJob(ts))
 		}
 	})
-	rep.Rule = "seeded random call histories (2..6 calls: valid, mutated, truncated, '+'-pending and '+'-revealing inputs; Parse / ParseReader with chunkings; no callback, func(any), func(any) bool; Reuse on/off per call; token functions registered or not) on ONE sen.Parser, each call compared (tree or error text and position) with the same call on a fresh parser; values returned earlier are rendered at return time and re-compared after every later call (calls with Reuse excepted); the input buffer is overwritten after each call; the same through the pooled sen.Parse/sen.ParseReader from one goroutine; the Lean machine is asked about every call with the plus flag it says the previous call left; the same kind of histories (Parse / Load with chunkings, OnlyOne on/off, inputs that stop while a member name is expected) on ONE sen.Tokenizer, callbacks and error compared with a fresh tokenizer, the Lean tokenizer machine asked about every call with the exkey flag the instance really holds at entry (read by reflection)"
+	rep.Rule = "seeded random call histories (2..6 calls: valid, mutated, truncated, '+'-pending and '+'-revealing inputs; Parse / ParseReader with chunkings; no callback, func(any), func(any) bool; Reuse on/off per call; token functions registered or not) on ONE sen.Parser, each call compared (tree or error text and position) with the same call on a fresh parser; values returned earlier are rendered at return time and re-compared after every later call (calls with Reuse excepted); the input buffer is overwritten after each call; the same through the pooled sen.Parse/sen.ParseReader from one goroutine; the Lean machine is asked about every call with the plus flag it says the previous call left; the same kind of histories (Parse / Load with chunkings, OnlyOne on/off, inputs that stop while a member name is expected) on ONE sen.Tokenizer, callbacks and error compared with a fresh tokenizer, the Lean tokenizer machine asked about every call with the exkey flag the instance really holds at entry (read by reflection); distinct_nontrivial counts the distinct histories (inputs, entry points, chunkings, options of all calls) by a 64-bit hash folded into a bit set (a lower bound); the pooled phase is one long history and is not counted there"
 }
